@@ -67,6 +67,8 @@ def adapters():
 
 def gen_ids(rng):
     base = str(rng.randint(1, 99999))
+    if rng.random() < 0.2:
+        base = str(rng.randint(1000000, 9999999))      # ids that outgrow a seven-character column
     pool = [base, base + "0", base[:-1] or "7", base + "1",
             str(rng.randint(1, 99999)), str(rng.randint(100000, 9999999))]
     k = rng.randint(1, 4)
@@ -195,8 +197,11 @@ def gen_bjobs(rng, ids, pool, malformed):
             rows.append(rng.choice(["|||", " | | | ", "|%s|%s|-" % (jid, st)]))
             listed.append((jid, None))
             continue
-        rows.append("%s|%s|%s|%s" % (pad(rng, jid, 7), pad(rng, st, 5), "-".ljust(10), reason))
-        listed.append((jid, (st, reason)))
+        shown = jid
+        if len(jid) > 7 and "[" not in jid and rng.random() < 0.6:
+            shown = jid[:7]      # `bjobs -o "jobid:7 ..."` cuts a longer id to the column width: another string
+        rows.append("%s|%s|%s|%s" % (pad(rng, shown, 7), pad(rng, st, 5), "-".ljust(10), reason))
+        listed.append((shown, (st, reason)))
     return "\n".join(rows) + rng.choice(["", "\n"]), listed
 
 
@@ -231,6 +236,8 @@ def classify_monitor(which, jid, row_state, result, mon):
 
 
 def run_slurm(rng, malformed=False):
+    import common
+    common.next_logging()
     ids, pool = gen_ids(rng)
     sq, sq_listed = gen_squeue(rng, ids, pool, malformed)
     sa, sa_listed = gen_sacct(rng, ids, pool, malformed)
@@ -296,6 +303,8 @@ def run_slurm(rng, malformed=False):
 
 
 def run_lsf(rng, malformed=False):
+    import common
+    common.next_logging()
     ids, pool = gen_ids(rng)
     outp, listed = gen_bjobs(rng, ids, pool, malformed)
     rc = gen_rc(rng)
@@ -334,6 +343,8 @@ def run_lsf(rng, malformed=False):
 
 
 def run_flux(rng):
+    import common
+    common.next_logging()
     ids, pool = gen_ids(rng)
     if rng.random() < 0.05:
         ids = []
